@@ -197,6 +197,9 @@ type apiCase struct {
 	Des       int         `json:"des,omitempty"`
 	RType     int         `json:"rtype,omitempty"` // 0 struct, 1 map
 	Resp      []respSpec  `json:"resp"`            // one per evaluation
+	// Ambiguous: a supplied value (or stray brace) forms another supplied {key} token; the expected
+	// URL is the single-pass substitution of the TEMPLATE's placeholders (values are not rescanned)
+	Ambiguous bool `json:"ambiguous,omitempty"`
 }
 
 func (c *apiCase) String() string { b, _ := json.Marshal(c); return string(b) }
@@ -707,7 +710,11 @@ func runCase[R any](c *apiCase, rk rKind[R]) (res result) {
 			return
 		}
 		if got.URL != wantURL.String() {
-			res.fail("C17/url", "request URL %q, want %q (= BaseURL + \"/\" + %q with %v substituted)", got.URL, wantURL.String(), c.Template, supplied)
+			key := "C17/url"
+			if c.Ambiguous {
+				key = "C17/url:value-contains-placeholder"
+			}
+			res.fail(key, "request URL %q, want %q (= BaseURL + \"/\" + %q with %v substituted)", got.URL, wantURL.String(), c.Template, supplied)
 			return
 		}
 		// headers: every default entry is there; declared Content-Type is there
@@ -1093,8 +1100,13 @@ func genURLPart(t *rapid.T, c *apiCase) {
 	}
 	c.NilParams = len(c.Params) == 0 && rapid.Bool().Draw(t, "nilParams")
 	c.Template = render(pieces, true)
-	if !orderIndependent(c.Template, c.Params) {
-		// no unique expected URL: drop the brace characters that are not placeholders
+	if !orderIndependent(c.Template, c.Params) && rapid.Bool().Draw(t, "keepAmbiguous") {
+		// a value contains another supplied {key}: "every supplied {key} of the template replaced
+		// by its value" means one pass over the template; replaced text is not substituted again
+		vlib.S().Class("template/value-contains-placeholder")
+		c.Ambiguous = true
+	} else if !orderIndependent(c.Template, c.Params) {
+		// drop the brace characters that are not placeholders
 		vlib.S().Class("template/braces-dropped")
 		c.Template = render(pieces, false)
 		for i := range c.Params {
